@@ -86,7 +86,8 @@ Definition prop_http_err (input impl : val) : option Z :=
   let encodable := as_bool (nthv 3 input) in
   let code := as_Z (nthv 4 input) in
   let override := match as_L (nthv 5 input) with [h] => Some (as_Z h) | _ => None end in
-  if written || canceled then None else
+  if written then (match as_L impl with [] => None | _ => Some 5 end)   (* 5: an error was rendered after the first response byte *)
+  else if canceled then None else
   let st := as_Z (nthv 0 impl) in
   let b := nthv 1 impl in
   let kind := as_Z (nthv 0 b) in
